@@ -259,6 +259,12 @@ pub const CONTEXTS: &[&str] = &[
     // an earlier branch that stored bindings before it failed (statically / at run time)
     "a = 1, 7 { 3 =x [] => 8 | {} }",
     "a = 1, [7, 8] { =[x, 9] => x | {} }",
+    // ... without `=>`: the pattern fails (binders nil-filled) / matches and a later term is nil
+    "f = #(A['int] | B['int]) { =A[x], x | {} }, B[7] f",
+    "a = 1, [3, 2] { =[x, _], x =9 | {} }",
+    // the flowing value inside a spread tuple, after a spread and plain fields
+    "A[x: 1] [..., y: 2, z: {}]",
+    "a = [x: 5], 9 [...a, y: 2, z: {}]",
 ];
 
 /// All programs of the core grammar with at most `max_nodes` nodes, simplest first, at most `cap`.
